@@ -617,5 +617,71 @@ pub fn check_inv(slots: &[RawSlot], require_single_root: bool) -> Result<(), Str
 
 /// short signature of an invariant failure (clause name only)
 pub fn inv_sig(msg: &str) -> String {
-    msg.split_whitespace().next().unwrap_or("inv").to_string()
+    let w = msg.split_whitespace().next().unwrap_or("inv");
+    w.split('=').next().unwrap_or(w).to_string()
+}
+
+/// the real arena in slot syntax with lengths as exact bit patterns (`canon_f64`)
+pub fn enc_arena_bits(slots: &[RawSlot]) -> String {
+    if slots.is_empty() {
+        return "_".into();
+    }
+    let b = |l: Option<f64>| match l {
+        None => "-".to_string(),
+        Some(v) => canon_f64(v),
+    };
+    slots
+        .iter()
+        .map(|s| {
+            let ce = match &s.child_edges {
+                None => String::new(),
+                Some(v) => v.iter().map(|(c, e)| format!("{}={}", c, canon_f64(*e))).collect::<Vec<_>>().join(" "),
+            };
+            format!(
+                "{},{},{},{},{},{},{},{}",
+                if s.deleted { 1 } else { 0 },
+                enc_opt_usize(s.parent),
+                s.depth,
+                b(s.parent_edge),
+                enc_opt_str(&s.name),
+                enc_opt_str(&s.comment),
+                enc_ids(&s.children),
+                ce
+            )
+        })
+        .collect::<Vec<_>>()
+        .join("|")
+}
+
+/// rewrites a model arena whose lengths are lexemes (`h<hex>`) into bit patterns, using Rust's own
+/// `f64::from_str` — the codec the model is parametrised by
+pub fn lex_arena_to_bits(arena: &str) -> Option<String> {
+    if arena == "_" {
+        return Some("_".into());
+    }
+    let conv = |t: &str| -> Option<String> {
+        if t == "-" {
+            Some("-".into())
+        } else {
+            let lex = unhex(t.strip_prefix('h')?)?;
+            Some(canon_f64(lex.parse::<f64>().ok()?))
+        }
+    };
+    let mut out = vec![];
+    for slot in arena.split('|') {
+        let f: Vec<&str> = slot.split(',').collect();
+        if f.len() != 8 {
+            return None;
+        }
+        let ce: Option<Vec<String>> = f[7]
+            .split(' ')
+            .filter(|x| !x.is_empty())
+            .map(|x| {
+                let (c, e) = x.split_once('=')?;
+                Some(format!("{}={}", c, conv(e)?))
+            })
+            .collect();
+        out.push(format!("{},{},{},{},{},{},{},{}", f[0], f[1], f[2], conv(f[3])?, f[4], f[5], f[6], ce?.join(" ")));
+    }
+    Some(out.join("|"))
 }
